@@ -1163,6 +1163,16 @@ impl Manifest {
         let manifest: Manifest =
             serde_json::from_str(&contents).context("Failed to parse manifest JSON")?;
 
+        // A segment is registered exactly once. A duplicate can only come from damage (one
+        // flipped bit turns `wal_...704.wal` into its neighbour `wal_...784.wal`); replay
+        // would then apply one segment twice and never read the other.
+        let mut seen = std::collections::HashSet::with_capacity(manifest.wal_segments.len());
+        for segment in &manifest.wal_segments {
+            if !seen.insert(segment.as_str()) {
+                bail!("MANIFEST lists WAL segment {} more than once", segment);
+            }
+        }
+
         Ok(manifest)
     }
 
